@@ -92,8 +92,8 @@ def compare(S, ev):
         if post["teq"][p] != asdict(obs["teq"])[p]:
             bad(tag("C02:equity"), "total equity[%s] %s, expected %s" % (p, post["teq"][p], asdict(obs["teq"])[p]))
         for k in ("trp", "tup", "ttp"):
-            if not rat_close(post["_f"][k][p], asdict(obs[k])[p]):
-                bad(tag("C03:" + k), "%s[%s] %r, expected %s" % (k, p, post["_f"][k][p], asdict(obs[k])[p]), cascade=False)
+            if not rat_close(post["_f"][k][p], asdict(S["pnl"][k])[p]):
+                bad(tag("C03:" + k), "%s[%s] %r, expected %s" % (k, p, post["_f"][k][p], asdict(S["pnl"][k])[p]), cascade=False)
         # pending orders
         q = [[o["oid"], o["asset"], o["qty"]] for o in queue[p]]
         if post["queue"][p] != q:
